@@ -126,6 +126,7 @@ func cmdCheck(args []string) int {
 		fmt.Fprintln(os.Stderr, "keeping", tmp)
 	}
 
+	w.TmpDir = tmp
 	// generate (parallel, one engine per harness), prepare, then discharge
 	results := make([]*engine.HarnessResult, len(hs))
 	var wg sync.WaitGroup
@@ -151,6 +152,21 @@ func cmdCheck(args []string) int {
 		all = append(all, r.Obls...)
 	}
 	sem2 := make(chan struct{}, *jobs)
+	// automatic safety obligations are first tried in bundles (the Or of the BundleSafety terms is built sequentially per engine)
+	var bundles []*engine.Bundle
+	for _, r := range results {
+		bundles = append(bundles, engine.BundleSafety(r.Obls, 24)...)
+	}
+	for _, b := range bundles {
+		wg.Add(1)
+		go func(b *engine.Bundle) {
+			defer wg.Done()
+			sem2 <- struct{}{}
+			defer func() { <-sem2 }()
+			b.Discharge(solvers, tmp, 10)
+		}(b)
+	}
+	wg.Wait()
 	for _, o := range all {
 		wg.Add(1)
 		go func(o *engine.Obligation) {
@@ -217,6 +233,12 @@ func cmdCheck(args []string) int {
 		fnsUnder = append(fnsUnder, h.Name+targetSuffix(h))
 		for _, t := range r.Trusted {
 			trusted[t] = true
+		}
+		if *verbose {
+			for _, n := range r.Notes {
+				fmt.Printf("  note %s: %s\n", h.Name, n)
+			}
+			fmt.Printf("  gen %s: %.1fs steps=%d reads=%d\n", h.Name, r.ExecSec, r.Steps, r.Reads)
 		}
 		if r.Err != "" {
 			// the engine could not process the harness: undecided, never a pass
@@ -295,7 +317,34 @@ func cmdCheck(args []string) int {
 	for _, l := range knownLines {
 		fmt.Println(l)
 	}
+	// one line per (harness, label): the same clause reached along several paths is reported once
+	seenBase := map[string]int{}
+	var outLines []string
 	for _, l := range violLines {
+		base := l
+		if i := strings.Index(l, "obligation="); i >= 0 {
+			rest := l[i+len("obligation="):]
+			name := rest
+			if j := strings.IndexAny(rest, " "); j >= 0 {
+				name = rest[:j]
+			}
+			if k := strings.Index(name, "@"); k >= 0 {
+				name = name[:k]
+			}
+			if k := strings.Index(name, "#safety:"); k >= 0 {
+				// automatic safety obligations are grouped by source position
+				if p := strings.Index(l, " at "); p >= 0 {
+					name = name[:k] + "#safety@" + strings.Fields(l[p+4:])[0]
+				}
+			}
+			base = name
+		}
+		seenBase[base]++
+		if seenBase[base] == 1 {
+			outLines = append(outLines, l)
+		}
+	}
+	for _, l := range outLines {
 		fmt.Println(l)
 	}
 	wall := time.Since(t0).Seconds()
